@@ -300,6 +300,26 @@ def rule_slot_siblings(ctx):
         for bi, t in b.calls(lambda c: c.short == "mem_writer::Buffer::write_at"):
             ctx.check(canon(o.call_args(bi)[1]) == ("field", ("param", 1), "position"), R, ("set_value", "at-position"), b.where(bi),
                       "set_value writes at the slot's position", "set_value writes at %s" % show(o.call_args(bi)[1]))
+        # filling a reserved slot succeeds whenever the write itself does: the only way set_value / set_value_at can fail is the error of
+        # their write_at (a separate containment guard can only be wrong — the slot was handed out by alloc and lies inside the buffer)
+    for fn in ("mem_writer::MemoryWriter::set_value", "mem_writer::MemoryArrayWriter::set_value_at"):
+        b = ctx.body(R, fn)
+        if b is None:
+            continue
+        o = Origin(b)
+        ex = Exits(b)
+        wa = [bi for bi, t in b.calls(lambda c: c.short == "mem_writer::Buffer::write_at")]
+        local = []
+        for (eb, si) in ex.err_defs:
+            if si == "term":
+                e = o.call_expr(eb)
+            else:
+                e = o._rvalue(b.blocks[eb]["stmts"][si]["r"], (eb, si), 0)
+            if not any(q[0] == "call" and q[1] == "mem_writer::Buffer::write_at" for q in walk(e)):
+                local.append("%s @ %s" % (show(e)[:60], b.where(eb, si)))
+        ctx.check(bool(wa) and not local, R, (fn.split("::")[-1], "fails-only-with-write"), b.where(wa[0]) if wa else b.where(0),
+                  "%s has no failure of its own: every error it returns is the error of its write_at" % fn.split("::")[-1],
+                  "%s can fail before/without writing (%s): a slot that lies wholly inside the buffer may be left unfilled" % (fn.split("::")[-1], "; ".join(local)[:200]))
 
 
 def rule_write_at_window(ctx):
